@@ -23,6 +23,13 @@ def run(tier):
         insts.append(dict(id=i + 1, seed=int(rng.integers(0, 2 ** 31 - 1)), n=nn, m=int(rng.integers(1, 7)), cap=cap,
                           ninit=int(rng.integers(2, cap + 1)), spread=float(rng.choice([1e-3, 1e-2, 1e-1, 1.0, 10.0])),
                           far=float(rng.choice([0.0, 1.0, 1e3, 1e6])), len=int(rng.choice([6, 12, 25])), precond=bool(rng.random() < 0.8)))
+    # the same histories inside a finite box that is tight against the base shifts (0.6 .. 3 spreads a side): points on and near the bounds
+    for j in range(160 if tier == "quick" else 3000):
+        nn = int(rng.integers(1, 7))
+        cap = int(rng.integers(nn + 1, 2 * nn + 2))
+        insts.append(dict(id=n + 1 + j, seed=int(rng.integers(0, 2 ** 31 - 1)), n=nn, m=int(rng.integers(1, 7)), cap=cap, box=True,
+                          ninit=int(rng.integers(2, cap + 1)), spread=float(rng.choice([1e-3, 1e-2, 1e-1, 1.0, 10.0])),
+                          far=float(rng.choice([0.0, 1.0, 1e3, 5e3])), len=int(rng.choice([6, 12, 25])), precond=bool(rng.random() < 0.8)))
     import multiprocessing as mp
     ctx = mp.get_context("fork")
     with ctx.Pool(min(16, vlib.NCPU)) as pool:
